@@ -152,10 +152,13 @@ func (s *Store[H]) Stop(ctx context.Context) error {
 	// signal to prevent further writes to Store
 	select {
 	case s.writes <- nil:
-		s.cancel()
 	case <-ctx.Done():
 		return ctx.Err()
 	}
+	// cancel the writer's context only once it is done writing (or the caller gave up waiting),
+	// so that the writes queued before the signal are drained and the head is advanced
+	// and persisted with a live context
+	defer s.cancel()
 	// wait till it is done writing
 	select {
 	case <-s.writesDn:
